@@ -342,25 +342,19 @@ Theorem C17_classify_conforms_iff : forall c e k, classify c e = Conforms k <-> 
 Proof. exact classify_conforms_iff. Qed.
 
 (** the digit-stripping loop decides membership in the {1,2,5}·10^k series within the bounds *)
-Theorem C17_canonical_equiv : forall v lo hi, 1 <= lo -> hi < 10 ^ 20 ->
+Theorem C17_canonical_equiv : forall v lo hi, 0 <= lo \/ 0 <= v -> hi < 10 ^ 20 ->
   is_canonical_within v lo hi = canonical_spec v lo hi.
-Proof. exact canonical_equiv. Qed.
+Proof. exact canonical_equiv_gen. Qed.
 
-(** the test always answers, except on value 0 under a non-positive lower bound, where the loop
-    never exits — KNOWN FINDING (class 2) *)
-Theorem C17_canonical_terminates : forall v lo hi, 0 <= v < 10 ^ 64 -> 1 <= lo \/ 1 <= v ->
+(** the test answers on every amount whatever the bounds (the loop stops at zero: fixed in
+    /repo commit 7dcaa30; before it, value 0 under a zero lower bound never got an answer), and
+    zero is never canonical *)
+Theorem C17_canonical_terminates : forall v lo hi, 0 <= v < 10 ^ 63 ->
   is_canonical_within_opt v lo hi = Some (is_canonical_within v lo hi).
 Proof. exact canonical_opt_terminates. Qed.
 
-Theorem C17_canonical_zero_bound_refuted : forall hi, 0 <= hi -> is_canonical_within_opt 0 0 hi = None.
-Proof. exact canonical_zero_bound_refuted. Qed.
-
-Theorem C17_canonical_diverges_iff : forall v lo hi, 0 <= v < 10 ^ 64 ->
-  (is_canonical_within_opt v lo hi = None <-> v = 0 /\ lo <= 0 /\ 0 <= hi).
-Proof. exact canonical_opt_none_iff. Qed.
-
-Theorem C17_strip_zero_never_exits : forall fuel, strip_radix_opt fuel 0 = None.
-Proof. exact strip_zero_never_exits. Qed.
+Theorem C17_canonical_zero : forall lo hi, is_canonical_within_opt 0 lo hi = Some false.
+Proof. exact canonical_zero. Qed.
 
 Theorem C17_code_roundtrip : forall x, from_code (to_code x) = x.
 Proof. exact code_roundtrip. Qed.
